@@ -62,7 +62,8 @@ def gen_response(rng, want, fault):
     if fault == "503":
         return {"status": rng.choice([500, 503]), "code": "UNAVAILABLE"}
     if fault == "404":
-        return {"status": rng.choice([404, 403, 401]), "code": "BLOB_UNKNOWN"}
+        # 4xx, and 1xx / 3xx answers (with or without a Location) that are not a success either
+        return {"status": rng.choice([404, 403, 401, 301, 302, 303, 307, 308, 102]), "code": rng.choice(["BLOB_UNKNOWN", "LOC1", "X"])}
     if fault == "short":
         cut = rng.randrange(0, len(want)) if want else 0
         return {"status": 200, "pieces": [p for p in split(rng, want[:cut], rng.randint(0, 1)) if p], "tail": None}
@@ -82,7 +83,8 @@ def gen_response(rng, want, fault):
     raise ValueError(fault)
 
 
-FAULTS = ["503", "503", "404", "short", "long", "corrupt", "reset", "boom", "timeout"]
+FAULTS = ["503", "503", "404", "404", "short", "long", "corrupt", "reset", "boom", "timeout"]
+ODD_DIRS = ["models[v2]", "[1]", "*", "?", "{a,b}", "back\\slash", "with space", "m\u00f6d\u00e8ls", "dot.", "x" * 150]
 
 
 def gen_plan(rng, content, kind):
@@ -155,6 +157,20 @@ def gen_pull(rng, klass=None):
             pk = "partition" if rng.random() < 0.85 or gated else rng.choice(["drop", "overlap", "beyond", "shifted", "shifted", "gapfull", "gapfull", "wrongchunk", "wrongchunk"])
             plankind[c] = pk
             plans[c] = gen_plan(rng, c, pk)
+    # the registry may have streamed a wrong chunk list in the earlier attempts (a range past the layer's end and a chunk
+    # missing) and the right one later: what the failed attempts left must not pass for the layer
+    badplans = {}
+    if not gated and natt >= 2 and rng.random() < 0.2:
+        for c in plans:
+            if plankind[c] == "partition" and len(plans[c]) >= 2 and rng.random() < 0.7:
+                bp = list(plans[c])
+                bp.pop(rng.randrange(len(bp)))
+                ln = rng.randint(1, 3)
+                bp.append((len(c), ln, rnd_content(rng, ln)))
+                if rng.random() < 0.5:
+                    rng.shuffle(bp)
+                badplans[c] = bp
+                plankind[c] = "beyond-then-partition"
     attempts = []
     for ai in range(natt):
         last = ai == natt - 1
@@ -162,15 +178,15 @@ def gen_pull(rng, klass=None):
         a = {"layers": list(layers), "config": config, "mkind": "ok", "env": {}, "order": None}
         r = rng.random()
         if r < 0.10:
-            a["mkind"] = rng.choice(["500", "404", "403", "403", "badjson", "nolayers", "nulllayer"])
+            a["mkind"] = rng.choice(["500", "404", "403", "403", "307", "302", "badjson", "nolayers", "nulllayer"])
             if handler and a["mkind"] == "nulllayer":
                 a["mkind"] = "nolayers"     # through the handler a panic of Pull kills the process (bare goroutine): direct mode only
         for c in layers + ([config] if config else []):
             e = {"cs_status": 200, "tail": None, "plan": [], "single": None}
             if len(c) >= thr:
-                plan = list(plans[c])
+                plan = list(badplans[c]) if (c in badplans and ai < natt - 1) else list(plans[c])
                 if rng.random() < pfault * 0.3:
-                    e["cs_status"] = rng.choice([503, 404, 401])
+                    e["cs_status"] = rng.choice([503, 404, 401, 302, 307, 102])
                 if rng.random() < pfault * 0.4:
                     plan = plan[: rng.randrange(0, len(plan) + 1)]
                     e["tail"] = rng.choice(["baddigest", "norange", "badrange", "revrange", "boom", None])
@@ -224,6 +240,8 @@ def gen_pull(rng, klass=None):
                     keys.append((sha(c), 0, len(c)))
             rng.shuffle(keys)
             a["order"] = keys
+        if ai > 0 and not handler and rng.random() < 0.3:
+            a["reopen"] = True        # the process was restarted: a new DiskCache on the same directory
         attempts.append(a)
     pre = []
     if rng.random() < 0.25:
@@ -240,6 +258,7 @@ def gen_pull(rng, klass=None):
     return {"kind": "pull", "threshold": thr, "max_streams": rng.choice([-1, -1, -1, 2, 3, 0]) if gated else 1, "handler": handler, "pre": pre, "attempts": attempts,
             "read_timeout_ms": 400 if any(a.get("stall") for a in attempts) else None,
             "stream": not (handler and rng.random() < 0.25), "auth": rng.random() < 0.3,
+            "dirname": rng.choice(ODD_DIRS) if rng.random() < 0.25 else None,
             "plankind": sorted(set(plankind.values())), "klass": klass or ("pull-gated" if gated else "pull-seq") + ("-handler" if handler else "")}
 
 
@@ -296,7 +315,7 @@ def to_harness(c):
     atts = []
     for a in c["attempts"]:
         man = {"status": 200, "body": hx(manifest_body(a))}
-        if a["mkind"] in ("500", "403"):
+        if a["mkind"] in ("500", "403", "307", "302"):
             man = {"status": int(a["mkind"]), "code": "X"}
         elif a["mkind"] == "404":
             man = {"status": 404, "code": "MANIFEST_UNKNOWN"}
@@ -316,11 +335,13 @@ def to_harness(c):
         order = None
         if a["order"] is not None:
             order = [[d, "%d-%d" % (s, s + ln - 1)] for (d, s, ln) in a["order"]]
-        atts.append({"manifest": man, "chunksums": cs, "blobs": bl, "order": order})
+        atts.append({"manifest": man, "chunksums": cs, "blobs": bl, "order": order, "reopen": bool(a.get("reopen"))})
     out = {"kind": "pull", "threshold": c["threshold"], "max_streams": c["max_streams"], "name": NAME, "handler": c["handler"],
            "pre": c["pre"], "attempts": atts}
     if c.get("read_timeout_ms"):
         out["read_timeout_ms"] = c["read_timeout_ms"]
+    if c.get("dirname"):
+        out["dirname"] = c["dirname"]
     if c.get("stream") is False:
         out["stream"] = False
     if c.get("auth"):
@@ -410,7 +431,7 @@ def cq_attempt(c, a):
     body = manifest_body(a)
     if a["mkind"] in ("500",):
         man = "(MFail PTemp)"
-    elif a["mkind"] == "403":
+    elif a["mkind"] in ("403", "307", "302"):
         man = "(MFail PPerm)"
     elif a["mkind"] == "404":
         man = "(MFail PNotFound)"
@@ -504,12 +525,12 @@ def gen_push(rng):
         if r < 0.2:
             post[sha(c)] = {"status": 200, "location": False}      # already at the registry
         elif r < 0.35:
-            post[sha(c)] = {"status": rng.choice([500, 403, 404, 401]), "location": True}
+            post[sha(c)] = {"status": rng.choice([500, 403, 404, 401, 307, 308, 302, 102]), "location": True, "code": rng.choice(["", "LOC"])}
         else:
             post[sha(c)] = {"status": 200, "location": True}
-            if rng.random() < 0.2:
-                put[sha(c)] = {"status": rng.choice([500, 400, 401])}
-    man = {"status": 200 if rng.random() < 0.85 else rng.choice([500, 401])}
+            if rng.random() < 0.35:
+                put[sha(c)] = {"status": rng.choice([500, 400, 401, 307, 308, 301, 302, 303, 102]), "code": rng.choice(["", "LOC"])}
+    man = {"status": 200 if rng.random() < 0.85 else rng.choice([500, 401, 307, 308]), "code": rng.choice(["", "LOC"])}
     return {"kind": "push", "auth": rng.random() < 0.4, "name": NAME, "max_streams": rng.choice([1, 1, 0, -1]), "layers": [hx(c) for c in layers], "post": post, "put": put,
             "manifest": man, "klass": "push-new"}
 
@@ -822,11 +843,47 @@ def monitor_pull(c, o):
         return out
     prev = o["pre_snap"]
     for k, (a, oa) in enumerate(zip(c["attempts"], o["attempts"])):
+        # a clean retry after any history of attempts against a well-behaved registry succeeds (no stuck state)
+        if oa["err"] != "" and k > 0 and attempt_clean(c, a) and all(plans_are_partitions(c, b) for b in c["attempts"][: k + 1]) and not c["pre"]:
+            out.append(({"kind": "pull", "class": "clean-retry-fails", "reopen": bool(a.get("reopen"))},
+                        "attempt %d is served without any fault by a registry whose chunk lists were partitions all along%s, but Pull fails: %s" % (
+                            k, " (cache re-opened before it)" if a.get("reopen") else "", oa.get("msg", oa["err"])[:160])))
         if oa["err"].startswith("other:PANIC"):
             out.append(({"kind": "pull", "class": "panic", "manifest": a["mkind"]}, "attempt %d: Pull panicked (in the server this kills the process: handlePull runs Pull in a bare goroutine): %s" % (k, oa["err"])))
         out += check_attempt(c, a, prev, oa["snap"], oa["err"] == "", k, oa)
         prev = oa["snap"]
     return out
+
+
+def attempt_clean(c, a):
+    if a["mkind"] != "ok":
+        return False
+    for e in a["env"].values():
+        if e["cs_status"] != 200 or e["tail"] is not None or e.get("cancel"):
+            return False
+        for it in (e["plan"] if e["single"] is None else [e["single"]]):
+            if it["fault"] != "ok":
+                return False
+    return True
+
+
+def plans_are_partitions(c, a):
+    for cont in all_layers(a):
+        e = a["env"][sha(cont)]
+        if e["single"] is None and e["tail"] is None and e["cs_status"] == 200 and not e.get("cancel"):
+            cov = sorted((it["start"], it["len"]) for it in e["plan"])
+            pos = 0
+            for s_, ln in cov:
+                if s_ != pos:
+                    return False
+                pos += ln
+            if pos != len(cont) or any(it.get("bytes") is not None for it in e["plan"]):
+                return False
+        elif e["single"] is None:
+            # a cut chunk list: its items must still be ranges of the layer
+            if any(it["start"] + it["len"] > len(cont) or it.get("bytes") is not None for it in e["plan"]):
+                return False
+    return True
 
 
 def check_attempt(c, a, prev, snap, ok, k, oa):
